@@ -1,6 +1,6 @@
 (* RunC01.v — case-file helpers of the C01 check: the real label naming, the structured interpreter run on a source tree,
    and the comparison "parse_script (printed text) = compiled tree" (used only by generated case files). *)
-From BS Require Import Model.Base Model.Num Model.Arith Model.ExprParser Model.Script Model.Interp Model.LibCore Model.LibAll Model.Run
+From BS Require Import Model.Base Model.Num Model.Arith Model.ExprParser Model.Script Model.Interp Model.LibCore Model.LibAll Model.LibPartial Model.Run
                        Proofs.C01 Proofs.C01b.
 
 Definition real_lab (k : lkind) (n : nat) : str :=
@@ -18,7 +18,7 @@ Definition check_lowering (text : str) (s : sstmt) : bool :=
 Definition check_struct (fuel : nat) (s : sstmt) (w : world) (x : expected) (xlog : list str) (xglobals : list (str * tree)) : N :=
   let cfg := mkcfg 0 false true in
   let w0 := upd_count (upd_globals w (inject_library (w_globals w))) 0 in
-  match sexec cfg (libfull cfg) no_url no_lint UHost fuel s (None, w0) with
+  match sexec cfg (libfull2 cfg) no_url no_lint UHost fuel s (None, w0) with
   | None => 3%N
   | Some (o, (_, w1)) =>
     let out := match o with SNormal => Some (OVal VNull) | SStop r => Some r | _ => None end in
